@@ -31,7 +31,10 @@ class RecRng:
             return float(vals[0])
         return vals.reshape(size)
 
-    def random(self, size=None):
+    def random(self, size=None, dtype=np.float64, out=None):
+        if out is not None:
+            out[...] = self.uniform(0.0, 1.0, np.shape(out))
+            return out
         return self.uniform(0.0, 1.0, size)
 
 
